@@ -7,6 +7,15 @@
 // (internal/ref/plfs). After every event every allowed power-loss outcome is materialised and each
 // font name must be absent, or hold its previous complete representation, or its new complete one;
 // after the success return every installed name must be durable in every outcome.
+//
+// Both tiers end with a control: the RECORDED trace is broken in memory (a file fsync dropped, the
+// directory fsyncs after the last publication dropped, a file fsync moved behind the publishing rename)
+// and the model checker must flag every kind of break; a checker that stays silent is a dead oracle and
+// the run is BROKEN.
+//
+// The thorough tier (thorough.go) adds every installation route and batch shape, installation sequences
+// (re-installation), a second tree-shaped implementation of the model with the complete product of
+// per-directory outcomes, and a harsher model variant that is counted, not judged.
 package main
 
 import (
@@ -23,6 +32,8 @@ import (
 	"verif/harness/internal/vk"
 )
 
+func watch(name string) bool { return strings.HasSuffix(name, ".gob") && !strings.HasPrefix(name, ".") }
+
 func main() {
 	vk.Run("C07", "fault_enumeration", func(t *vk.T) {
 		api.DisableConfigDir()
@@ -33,21 +44,30 @@ func main() {
 		if err != nil {
 			t.Broken("material: %v", err)
 		}
+		ctl := &control{}
 		n := 0
 		for _, sh := range fontcase.Shapes(false) {
 			if sh.Invalid || (sh.Kind != "installfonts" && sh.Kind != "ttc" && sh.Kind != "frombytes") {
 				continue
 			}
-			runShape(t, mat, sh)
+			runShape(t, mat, sh, ctl)
 			n++
 		}
 		if n == 0 || t.Counter("crash_states_checked") == 0 {
 			t.Broken("nothing observed")
 		}
+		if !t.Quick() {
+			thorough(t, mat, ctl)
+		}
+		ctl.verdict(t)
 	})
 }
 
-func runShape(t *vk.T, mat *fontcase.Material, sh fontcase.Shape) {
+func toEv(e *osmon.Event) plfs.Ev {
+	return plfs.Ev{Seq: e.Seq, Op: e.Op, Path: e.Path, Path2: e.Path2, Flag: e.Flag, FID: e.FID, N: e.N, Pos: e.Pos, OK: e.Done && e.Err == ""}
+}
+
+func runShape(t *vk.T, mat *fontcase.Material, sh fontcase.Shape, ctl *control) {
 	root := filepath.Join(t.Scratch(), "sb")
 	c, err := fontcase.Setup(root, sh, mat)
 	if err != nil {
@@ -55,7 +75,8 @@ func runShape(t *vk.T, mat *fontcase.Material, sh fontcase.Shape) {
 		return
 	}
 	font.ReloadUserFonts()
-	model := plfs.New(root)
+	tree := plfs.Scan(root)
+	model := plfs.NewFrom(root, tree)
 	m := &osmon.Mon{Scope: root, Record: true}
 	var rerr error
 	var pv any
@@ -65,14 +86,18 @@ func runShape(t *vk.T, mat *fontcase.Material, sh fontcase.Shape) {
 		return
 	}
 	evs := m.Events()
-	watch := func(name string) bool { return strings.HasSuffix(name, ".gob") && !strings.HasPrefix(name, ".") }
+	if os.Getenv("C07_DUMP") != "" {
+		dump(root, sh.Name, evs)
+	}
 	reported := map[string]bool{}
 	syncs, dirSyncs, renames := 0, 0, 0
+	var tr []plfs.Ev
 	for i, e := range evs {
 		if e.Depth > 0 {
 			continue
 		}
-		model.Apply(plfs.Ev{Seq: e.Seq, Op: e.Op, Path: e.Path, Path2: e.Path2, Flag: e.Flag, FID: e.FID, N: e.N, Pos: e.Pos, OK: e.Done && e.Err == ""})
+		tr = append(tr, toEv(e))
+		model.Apply(toEv(e))
 		switch e.Op {
 		case "sync":
 			syncs++
@@ -110,6 +135,7 @@ func runShape(t *vk.T, mat *fontcase.Material, sh fontcase.Shape) {
 	t.Count("dir_fsyncs_seen", int64(dirSyncs))
 	t.Count("renames_seen", int64(renames))
 	t.Sample(map[string]any{"shape": sh.Name, "events": len(evs), "fsyncs": syncs, "dir_fsyncs": dirSyncs, "renames": renames, "expected": c.Expected})
+	ctl.run(t, sh.Name, root, tree, c.FontDir, &trace{evs: tr, bounds: []int{len(tr)}, expected: [][]string{c.Expected}}, false)
 }
 
 func rel(root, p string) string {
@@ -117,4 +143,18 @@ func rel(root, p string) string {
 		return r
 	}
 	return p
+}
+
+func dump(root, name string, evs []*osmon.Event) {
+	fmt.Fprintf(os.Stderr, "---- trace %s (%d events)\n", name, len(evs))
+	for _, e := range evs {
+		if e.Op == "read" || e.Op == "readat" || e.Op == "stat" || e.Op == "lstat" || e.Op == "fstat" {
+			continue
+		}
+		fmt.Fprintf(os.Stderr, "%4d d%d %-9s %s", e.Seq, e.Depth, e.Op, rel(root, e.Path))
+		if e.Path2 != "" {
+			fmt.Fprintf(os.Stderr, " -> %s", rel(root, e.Path2))
+		}
+		fmt.Fprintf(os.Stderr, " fid=%d flag=%#x n=%d err=%q\n", e.FID, e.Flag, e.N, e.Err)
+	}
 }
